@@ -3,6 +3,7 @@
 #include <string.h>
 #include "inst.h"
 #include "glue_inst.h"
+#include "inst_names.h"
 
 #define X(sym, name, sig, kind, info) { name, sig, kind, info, (void (*)(void))inst_##sym },
 const InstExport inst_exports[] = {
@@ -12,12 +13,15 @@ const InstExport inst_exports[] = {
 #undef X
 
 static InstEnv* g_env;
+int g_unknown_lookups;
 static void* resolve(const char* module, const char* name) {
-    if (strcmp(module, "env") != 0 || !g_env) return NULL;
-    if (!strcmp(name, "mem")) return g_env->mem;
-    if (!strcmp(name, "tab")) return g_env->tab;
-    if (!strcmp(name, "goff")) return &g_env->goff;
-    if (!strcmp(name, "ginit")) return &g_env->ginit;
+    /* exact string match on the names the module imports (inst_names.h); anything else is unknown to this embedder */
+    if (!g_env) return NULL;
+    if (!strcmp(module, N_MEM_MOD) && !strcmp(name, N_MEM)) return g_env->mem;
+    if (!strcmp(module, N_TAB_MOD) && !strcmp(name, N_TAB)) return g_env->tab;
+    if (!strcmp(module, N_GOFF_MOD) && !strcmp(name, N_GOFF)) return &g_env->goff;
+    if (!strcmp(module, N_GINIT_MOD) && !strcmp(name, N_GINIT)) return &g_env->ginit;
+    g_unknown_lookups++;
     return NULL;
 }
 InstEnv* iglue_env_new(unsigned mem_min, unsigned mem_max, unsigned goff, unsigned long long ginit) {
@@ -47,28 +51,28 @@ void* iglue_new_child(void* parent, InstEnv* env) {
 }
 unsigned char* iglue_mem_data(void* inst) {
 #if MEM_IMPORTED
-    return ((instInstance*)inst)->env__mem->data;
+    return ((instInstance*)inst)->MEM_FIELD->data;
 #else
     return ((instInstance*)inst)->m0->data;
 #endif
 }
 unsigned iglue_mem_pages(void* inst) {
 #if MEM_IMPORTED
-    return ((instInstance*)inst)->env__mem->pages;
+    return ((instInstance*)inst)->MEM_FIELD->pages;
 #else
     return ((instInstance*)inst)->m0->pages;
 #endif
 }
 void* iglue_mem_object(void* inst) {
 #if MEM_IMPORTED
-    return ((instInstance*)inst)->env__mem;
+    return ((instInstance*)inst)->MEM_FIELD;
 #else
     return ((instInstance*)inst)->m0;
 #endif
 }
 void* iglue_tab_object(void* inst) {
 #if TAB_IMPORTED
-    return ((instInstance*)inst)->env__tab;
+    return ((instInstance*)inst)->TAB_FIELD;
 #else
     return &((instInstance*)inst)->t0;
 #endif
